@@ -798,7 +798,7 @@ def RtCtx.feedFromA (c : RtCtx) : Nat → Abs → List Nat → Nat → Abs × St
 
 def RtCtx.feedA (c : RtCtx) (a : Abs) (chunk : List Nat) (pos : Nat) : Abs × String × Nat :=
   let rest := chunk.drop pos
-  if c.needsEndCheck && rest.isEmpty then (a, if c.M.isFailState a.state then "FAIL" else "OK", pos)
+  if c.needsEndCheck && rest.isEmpty then (a, if c.emptyFails a.state then "FAIL" else "OK", pos)
   else c.feedFromA (rest.length + 2) a rest pos
 
 def RtCtx.endCallA (c : RtCtx) (a : Abs) : Abs × String :=
